@@ -60,7 +60,7 @@ class Explorer:
         ip2.feed_token(Token(ttype, lexeme))
         return ip2
 
-    def contexts(self, max_contexts=None):
+    def contexts(self, max_contexts=None, progress=None):
         """BFS over contexts; returns dict ctx -> (token path [(type, lexeme)], ip)"""
         ip0 = self.start()
         seen = {self.ctx(ip0): ([], ip0)}
@@ -68,6 +68,8 @@ class Explorer:
         while q:
             c = q.popleft()
             path, ip = seen[c]
+            if progress:
+                progress()
             for tname in sorted(ip.accepts()):
                 if tname == "$END" or tname not in self.terms or not self.terms[tname]:
                     continue
